@@ -211,6 +211,11 @@ class PathAI:
                 oc = occ.get(iid, 0)
                 if blk["loophdr"]:
                     newvals[iid] = ("havoc", iid, oc)
+                    for v, pb in ins["inc"]:
+                        if pb == pred:
+                            # remember what flowed in (data dependence through the loop variable)
+                            newvals[("hin", iid, oc)] = self.val(v, env)
+                            break
                 else:
                     t = None
                     for v, pb in ins["inc"]:
